@@ -3432,7 +3432,17 @@ pub fn dump() -> String {
 
 pub fn drop(file_path: PathId, prj: Option<StrId>) {
     clear_resolve_caches();
-    SYMBOL_TABLE.with(|f| f.borrow_mut().drop(file_path, prj))
+    SYMBOL_TABLE.with(|f| f.borrow_mut().drop(file_path, prj));
+    // Generic instances are created by the references of the dropped file and
+    // go with it; keep the structural index in step so a re-analysis can
+    // register its own instances under the same keys.
+    SYMBOL_TABLE.with(|f| {
+        let table = f.borrow();
+        GENERIC_INSTANCE_INDEX.with(|g| {
+            g.borrow_mut()
+                .retain(|_, id| table.symbol_table.contains_key(id))
+        });
+    });
 }
 
 pub fn add_reference(target: SymbolId, token: &Token) {
